@@ -69,6 +69,7 @@ let parse_op s =
   | ["E"; slot; id] -> MEdit (O, nat slot, stok id)
   | ["E"; slot; id; k] -> MEdit (nat k, nat slot, stok id)
   | ["X"] -> MDrop
+  | "R" :: k :: alt :: _ -> MStruct (nat k, nat alt)        (* alt is replaced by the pool index below *)
   | ["A"] -> MOp OAssignAll
   | ["T"; k] -> MOp (OAssignType (kind_of_name k))
   | "I" :: k :: slot :: a :: b :: _ -> MOp (OAssignItem { v_kind = kind_of_name k; v_slot = nat slot; v_a = nat a; v_b = nat b })
@@ -110,12 +111,20 @@ let () =
        let line = input_line ic in
        (try
           let secs = String.split_on_char '|' line in
-          let parsed = List.map (fun t -> parse_structure (words t)) (String.split_on_char '/' (List.nth secs 2)) in
+          (* per model: alternatives separated by '~' (alternative 0 = the structure at hand-over); all of them go into one pool *)
+          let alts = List.map (fun t -> List.map (fun a -> parse_structure (words a)) (String.split_on_char '~' t))
+              (String.split_on_char '/' (List.nth secs 2)) in
+          let base = Array.make (List.length alts) 0 in
+          let _ = List.fold_left (fun (k, off) l -> base.(k) <- off; (k + 1, off + List.length l)) (0, 0) alts in
+          let parsed = List.concat alts in
           let sts = List.map snd parsed in
-          let ops = List.map parse_op (List.filter (fun x -> String.trim x <> "") (String.split_on_char ';' (List.nth secs 3))) in
-          let idss0 = List.map (fun (n, _) -> List.init n (fun _ -> [])) parsed in
+          let ops = List.map (fun o -> match parse_op o with
+              | MStruct (k, alt) -> MStruct (k, nat_of_int (base.(int_of_nat k) + int_of_nat alt))
+              | x -> x) (List.filter (fun x -> String.trim x <> "") (String.split_on_char ';' (List.nth secs 3))) in
+          let idss0 = List.map (fun l -> List.init (fst (List.hd l)) (fun _ -> [])) alts in
+          let stx = Array.to_list (Array.map nat_of_int base) in
           let out = Buffer.create 256 in
-          let ms = ref (minit idss0) in
+          let ms = ref (minit idss0 stx) in
           let dead = Hashtbl.create 4 in
           let cur_snap m =
             let k = int_of_nat m.m_ann.a_model in
